@@ -92,6 +92,8 @@ SPECIAL_FUNCTIONS: dict[str, Callable] = {
     "Heaviside": np.heaviside,
     "hypot": np.hypot,
     "erf": special.erf,
+    "re": lambda x: np.real(x),  # sympy's simplification can introduce these
+    "im": lambda x: np.imag(x),
 }
 
 
